@@ -40,7 +40,9 @@ META = {
                   "named programs, plugin testcases × configs), not proved. Uniqueness in the final model "
                   "rests on onnx_ir's NameFixPass (library code); explicit _outputs/name_hint names bypass the "
                   "counters. Trusted: the ModelProto→ModelTree translator, Lean's interpreter for per-model runs, "
-                  "onnx.checker / ORT as oracles (ORT limitations are classified and reported, not hidden).",
+                  "onnx.checker / ORT as oracles (ORT limitations are classified and reported, not hidden). Five genuine "
+                  "defects of the unchanged tree (well-scoped but ill-typed / undefined operator / illegal attribute value "
+                  "exports) are listed in known_findings.d/C03.json and exported on every run.",
     "design_ref": "DESIGN.md §3 C03",
 }
 
